@@ -536,7 +536,7 @@ def gen_single_random(rng, count):
 
 def gen_chains(rng, thorough):
     """every DAG x every order of fit calls x (first fit | fit + re-fit in every order)."""
-    reps = 3 if thorough else 1
+    reps = 8 if thorough else 1
     for dag, spec in DAGS.items():
         k = len(spec)
         perms = list(itertools.permutations(range(k)))
@@ -578,14 +578,14 @@ def run(tier, seed):
     rec.begin("anchors: predefined shapes with predefined bounds; active/inactive constraints (dict, list); active bounds",
               f"{len(anchors())} fixed scenarios", rule)
     feed(anchors())
-    cnt = 1200 if thorough else 240
+    cnt = 6000 if thorough else 240
     rec.begin("random polynomial/exponential/logistic/power shapes", f"{cnt} scenarios: 3..20 points, bounds none/all-None/lower/upper/box/mixed, "
               "weights none/steep/y/x/1/x, inactive constraints (dict/list), ndarray and list inputs", rule)
     feed(gen_single_random(rng, cnt))
     rec.begin("chains (chain, fork, join; 2-3 functions)", "ALL orders of fit calls x (fit | fit followed by re-fit in ALL orders) for 6 DAGs"
-              + (" x 3 data sets" if thorough else ""), rule)
+              + (" x 8 data sets" if thorough else ""), rule)
     feed(gen_chains(rng, thorough))
-    cc = 12 if thorough else 4
+    cc = 40 if thorough else 4
     rec.begin("ConditionalDistribution.fit with both orders of the parameters dict (OMAE2020 V-Hs structure)", f"{cc} data sets, fit and re-fit", rule)
     feed(gen_conddist(rng, cc))
     return jsonable(rec.result())
